@@ -746,6 +746,20 @@ Lemma purity_refuted_D7_revert : observations qf_sum policy_D7 hist_D7 <> spec_o
 Proof. vm_compute; discriminate. Qed.
 Lemma purity_refuted_D9_revert : observations qf_mm policy_D9 hist_D9 <> spec_observations qf_mm hist_D9.
 Proof. vm_compute; discriminate. Qed.
+(* Kernel2D.__init__ normalises IN PLACE (`self._array[:] = ...`): without the eager copy of convert_array_2d the array it writes
+   into is the caller's (a slim ndarray stored slim) or the source kernel's (`psf.normalized` = Kernel2D(values=self, normalize=True)) *)
+Definition qf_norm : qfn := fun q m a => map (fun x => 10 * x) a.
+Definition hist_norm_in : list op := [ONew [2; 2]; OConstruct (SIn 0) [false; false] false false (Some 5%nat); OPeekIn 0].
+Definition hist_norm_obj : list op :=
+  [ONew [2; 2]; OConstruct (SIn 0) [false; false] false false None; OConstruct (SObj 0) [false; false] false false (Some 5%nat); OPeekObj 0].
+Lemma purity_refuted_normalize_without_copy :
+  observations qf_norm policy_D7 hist_norm_in <> spec_observations qf_norm hist_norm_in /\
+  map (hget (st_heap (final qf_norm policy_D7 hist_norm_in))) (st_inputs (final qf_norm policy_D7 hist_norm_in)) <> news hist_norm_in /\
+  observations qf_norm policy_D7 hist_norm_obj <> spec_observations qf_norm hist_norm_obj /\
+  observations qf_norm faithful hist_norm_in = spec_observations qf_norm hist_norm_in /\
+  observations qf_norm faithful hist_norm_obj = spec_observations qf_norm hist_norm_obj /\
+  nth 1 (observations qf_norm faithful hist_norm_in) bad = Ok [20; 20].
+Proof. repeat split; vm_compute; discriminate. Qed.
 (* the D8 history is in the finding class; the histories of the repaired sites are outside it and pure today *)
 Lemma refutations_and_finding_class :
   avoids_findings qf_sum hist_D8 = false /\
@@ -868,5 +882,7 @@ Definition example_history : list op :=
    ORead 1 1; OSlice 1 [true; false; true]; ORead 2 1; OConstruct (SIn 0) [false; false; false; false] true true None;
    OAlias 3; ORead 4 7; OTrim 4 [false; true; true; false]; ORead 5 7; OCopy 0; ORead 6 1;
    ONew [1; 2; 3]; OValued 1 [false; false; false]; OValuesMasked 7; OMapRecon 7 0 0; OPeekIn 1;
-   ONew [1]; OImaging 2; OInterf 2; OImaging 2; OPeekIn 0].
+   ONew [1]; OImaging 2; OInterf 2; OImaging 2; OPeekIn 0;
+   OConstruct (SObj 0) [false; true; false; false] false true None; OConstruct (SObj 8) [false; true; false; false] true false (Some 9%nat);
+   OPeekObj 8; OPeekIn 0].
 Local Close Scope Z_scope.
